@@ -13,7 +13,6 @@ INVARIANT InvStatic
 INVARIANT InvContext
 INVARIANT InvBalance
 INVARIANT InvFailure
-INVARIANT InvTerminates
 INVARIANT InvResult
 INVARIANT InvModelled
 PROPERTY FrameStep
